@@ -732,6 +732,35 @@ def construct_path(stack: typing.Sequence[G]) -> str:
 # ---------------------------------------------------------------------------
 # interprocedural guard oracle over the templates of one language
 # ---------------------------------------------------------------------------
+def assert_call(N, node):
+    """the `_do_assert(...)` call when `node` is an `{% assert %}` statement - whichever node kind JinjaAssert.parse builds for it
+    (an empty CallBlock today; an expression statement or an output of the call are other spellings, judged by R-C19-EXT)"""
+    c = None
+    if isinstance(node, N.CallBlock):
+        c = node.call
+    elif isinstance(node, N.ExprStmt):
+        c = node.node
+    elif isinstance(node, N.Output) and len(node.nodes) == 1:
+        c = node.nodes[0]
+    if isinstance(c, N.Call) and c.args and "_do_assert" in xs(c.node):
+        return c
+    return None
+
+
+def is_assert_false(N, node) -> bool:
+    c = assert_call(N, node)
+    return c is not None and xs(c.args[0]) == "False"
+
+
+def find_asserts(N, node):
+    """all `{% assert %}` statements at or below node"""
+    out = [node] if assert_call(N, node) is not None else []
+    for x in node.find_all((N.CallBlock, N.ExprStmt, N.Output)):
+        if assert_call(N, x) is not None:
+            out.append(x)
+    return out
+
+
 class GuardOracle:
     """Decides whether a template location is reachable only under a guard satisfying `pred(facts)`, where facts is
     the list of (expression string, polarity) implied by the lexical guard stack.  Follows macro call sites (same
